@@ -391,6 +391,7 @@ func toConfig(b Bounds, c *Check, tier string) *sx.Config {
 	if b.Mode == "int" {
 		cfg.Mode = term.ModeInt
 	}
+	cfg.NoModelGuide = os.Getenv("VERIF_MODEL_GUIDE") == "" // measured: 11-17% fewer queries, no wall-clock gain (get-value cost); off unless asked for
 	cfg.OneShot = b.OneShot || b.OneShotAll
 	cfg.SolverAlt = b.SolverAlt
 	cfg.OneShotAll = b.OneShotAll
